@@ -10,7 +10,7 @@
      layout := <n> ditem*n  <ndlines> dline*  <text blanks after %%>  <n> ritem*n  <nrlines> rline*  final
      ditem  := w <cp> | c <text body> <cp>
      ritem  := n <cp> | c <text body> <cp>
-     dline  := <upper:0|1> <text kw> <text gap> <nseps> <cp>*nseps <text trail> <cp nl> <n> ditem*n
+     dline  := <upper:0|1> <text kw> <text gap> <nseps> <text blanks>*nseps <text trail> <cp nl> <n> ditem*n
      rline  := <npads> {<text> <text>}*npads <text blanks> <cp sp> (s|d) (;|d|s) <text trail> <n> ritem*n
      final  := e | ec <text body> | cl <text ws>
 
@@ -133,7 +133,7 @@ let decode (toks : string list) : bool * bool * bool * aspec * layout =
     let kw = txt () in
     let gap = txt () in
     let nsep = num () in
-    let seps = many nsep cp in
+    let seps = many nsep txt in
     let trail = txt () in
     let nl = cp () in
     let after = items ditem in
